@@ -21,6 +21,7 @@ CONSTANTS
  DevOrphanNotSkipped = FALSE
  DevOrphanAlwaysSkipped = FALSE
  DevNoFlushOnAck = FALSE
+ DevTolerateLostIdx = FALSE
 INIT Init
 NEXT Next
 VIEW View
